@@ -1,5 +1,6 @@
 SPECIFICATION Spec
 CONSTANTS
+  SweepLens <- SweepQuick
   Big = FALSE
 INVARIANTS
   Emit
